@@ -234,6 +234,37 @@ func mkCmpMatrix(ruleName string, onlyDT bool) *Rule {
 								} else {
 									kinds["threeway"] = true
 								}
+							} else if hc, hi := callOf(o0); hc != nil && hi == 0 && !hc.Call.IsInvoke() && hc.Call.StaticCallee() != nil && inModule(hc.Call.StaticCallee()) && hc.Call.StaticCallee().Blocks != nil && p.pairKind(calleeSig(hc)) == "" {
+								// the outcome a small helper worked out (`res, ok :=
+								// compareNull(op, left, right)`): its feasible returns
+								// for this pair of types, those the flag's test at the
+								// use rules out left aside
+								h := hc.Call.StaticCallee()
+								sub := e.subCtx(hc, h, ctx)
+								facts := realFacts(factsAt(r.Instr.Block()))
+								nret := 0
+								for _, hr := range e.feasibleReturns(h, sub) {
+									if e.returnExcluded(hc, hr, facts) {
+										continue
+									}
+									nret++
+									ho := stripConv(hr.Results[0])
+									if call, ok := ho.(*ssa.Call); ok && call.Call.StaticCallee() == conv {
+										arg := call.Call.Args[0]
+										if bo, ok := arg.(*ssa.BinOp); ok && p.enumOf(bo.X.Type()) != nil {
+											kinds["nullrule"] = true
+										} else {
+											kinds["threeway"] = true
+										}
+									} else if k, ok := constInt(ho); ok && k == constOf(p.A.PredUnknown) {
+										kinds["unknown"] = true
+									} else {
+										kinds["?const"] = true
+									}
+								}
+								if nret == 0 {
+									kinds["?const"] = true
+								}
 							} else {
 								kinds["?const"] = true
 							}
